@@ -675,10 +675,81 @@ def r05_7(ctx, counts) -> RuleResult:
     return res
 
 
+LAZY_MARKERS = ('_attributes', '_namespace_nodes')
+
+
+def r05_8(ctx, counts) -> RuleResult:
+    """a memoised value is not a snapshot of the lazily built part of the node tree"""
+    from ..engine.srcmodel import walk_local
+    model = ctx.model
+    res = RuleResult(
+        'R05.8', 'NO-MEMO-OF-LAZY-SNAPSHOT',
+        'Attribute and namespace nodes are built on first access; iter_lazy() (and a read of '
+        '_attributes / _namespace_nodes guarded by hasattr) enumerates only the part of a tree '
+        'built so far, which is the right thing for an identity test at the moment of the call '
+        'and nothing else. A value memoised on an object (functools.cached_property, cache, '
+        'lru_cache) must therefore not be computed, directly or through callees two levels deep, '
+        'from such an enumeration: nodes created after the first use would be missing from the '
+        'memo for the rest of the life of the object (fn:root() of an attribute built after an '
+        'earlier root() call on the same context returns the empty sequence).')
+    cg = ctx.memo('callgraph', lambda: CallGraph(ctx.model, ctx.reg))
+    n = 0
+
+    def lazy_reads(f) -> list[ast.AST]:
+        out: list[ast.AST] = []
+        for x in walk_local(f.node):
+            if isinstance(x, ast.Call) and isinstance(x.func, ast.Attribute) \
+                    and x.func.attr == 'iter_lazy':
+                out.append(x)
+            elif isinstance(x, ast.Call) and dotted(x.func) == 'hasattr' and len(x.args) == 2 \
+                    and isinstance(x.args[1], ast.Constant) and x.args[1].value in LAZY_MARKERS:
+                out.append(x)
+        return out
+
+    for f in sorted(model.all_functions(), key=lambda q: q.key):
+        decs = [stmt_text(d).split('(')[0].split('.')[-1] for d in f.node.decorator_list]
+        if not any(d in ('cache', 'lru_cache', 'cached_property') for d in decs):
+            continue
+        n += 1
+        seen = {f}
+        frontier = [f]
+        hit = None
+        for depth in range(3):
+            nxt = []
+            for g in frontier:
+                if g.name == 'iter_lazy':
+                    continue
+                rs = lazy_reads(g)
+                if rs and hit is None:
+                    hit = (g, rs[0], depth)
+                for h in sorted(cg.callees.get(g, ()), key=lambda q: q.key):
+                    if h not in seen:
+                        seen.add(h)
+                        nxt.append(h)
+            frontier = nxt
+        res.instances.append(f'{f.key}: memoised ({"/".join(decs)}); lazy snapshot read: '
+                             f'{None if hit is None else hit[0].key}')
+        if hit is None:
+            res.ok()
+        else:
+            g, node, depth = hit
+            res.fail(finding('R05.8', f, f.node, 'memo of a lazy snapshot',
+                             f'{f.name} is memoised but computed from `{stmt_text(node)[:50]}` '
+                             f'({g.key}, call depth {depth}), which enumerates only the '
+                             f'attribute/namespace nodes built so far: nodes created after the '
+                             f'first use are missing from the memo, so the answer for them '
+                             f'depends on the history of the object'))
+    counts['memoised_values'] = n
+    if n < 3:
+        raise AnalysisError(f'only {n} memoised functions/properties located')
+    return res
+
+
 def run(ctx) -> dict:
     counts: dict[str, int] = {}
     results = [r05_1(ctx, counts), r05_2(ctx, counts), r05_3(ctx, counts), r05_4(ctx, counts),
-               r05_5(ctx, counts), r05_6(ctx, counts), r05_7(ctx, counts)]
+               r05_5(ctx, counts), r05_6(ctx, counts), r05_7(ctx, counts),
+               r05_8(ctx, counts)]
     # process-wide state is written only by the reviewed inventory (no new caches)
     from .c19_global import r19_5 as _r19_5
     _state = _r19_5(ctx, counts, None, 6)
